@@ -310,6 +310,7 @@ func knobsFor(prop string, faulty bool) knobs {
 	case "C07":
 		k.watchMin, k.watchMax = 2, 3
 		k.pBlocking = 70
+		k.secondReporter = 30 // two blocking reports of ONE source in flight at the same time
 		k.blank = 30
 		k.pInvalid = 35
 		k.allowBad = true
